@@ -213,9 +213,13 @@ func (p *printer) trailing(textMode bool) string {
 
 // cb returns an optional extra blank inside a command.
 func (p *printer) cb() string {
-	if p.lay.next("command-blank")%5 == 1 {
+	switch p.lay.next("command-blank") % 7 {
+	case 1:
 		p.lay.note("command-blank")
 		return " "
+	case 2:
+		p.lay.note("command-blank")
+		return "   "
 	}
 	return ""
 }
